@@ -103,11 +103,14 @@ def handler : Driver.Handler := fun c i => do
       | [], (r, _) :: _ => some s!"{kind}: participant {r} failed with an I/O error while the sidecar was being (re)built by another process"
       | [], [] => none
     -- the protocol model's prediction: only the race schedule fails, and only its parked reader (C20_crossprocess_witness)
-    let predictedFail : List String := if kind == "xproc-race" && schedOk then ["R"] else []
+    -- (before /repo 87eecb0 the race schedule's parked reader failed: finding C20-F1, now fixed by the cross-process lock,
+    --  so the prediction is the one of C20_crossprocess_of_shared_lock: nobody fails, under every schedule)
+    let predictedFail : List String := []
     let k := wrong.isEmpty && (failed.map (·.1)) == predictedFail || !schedOk && wrong.isEmpty
-    let attr : Option String := if kind == "xproc-race" && wrong.isEmpty && (failed.map (·.1)) == ["R"] then some "C20-F1" else none
+    let attr : Option String := none
     return { model := Json.mkObj [("fails", Json.arr (predictedFail.map Json.str).toArray)], k := k, oracle := o, nt := true,
-             tags := [s!"sched-{kind}"] ++ (if schedOk && !harnessLost then [] else ["sched-timeout"]), attr := attr }
+             tags := [s!"sched-{kind}"] ++ (if schedOk && !harnessLost then [] else ["sched-timeout"])
+               ++ (if (i.getObjValAs? Bool "b_built_under_a").toOption.getD false then ["second-builder-not-excluded"] else []), attr := attr }
   let get (name : String) : Option (List Ans) := match i.getObjVal? name with | .ok v => some (parseAnswers v) | .error _ => none
   let modes := ["m0", "auto_nosidecar", "m1cold", "m1warm", "auto_sidecar"]
   let some m0 := get "m0" | throw "impl has no m0 answers (harness error)"
